@@ -12,15 +12,21 @@ RULE = ("(border) oriented manifold polygon surfaces: quad/tri/mixed grids and c
         "loops, several components, chords), gen_surface `surfaces` (all bases incl. closed ones, unions, sums) and Delaunay disks "
         "with removed ears (chords), relabelled / re-oriented; every border vertex is used as starting point, plus the default start, "
         "non-border starts, extract_border_cycle_all and extract_boundary_of_surface each on a fresh mesh; all answers compared with "
-        "border loops derived from the face list alone. non-trivial = >= 2 border loops. "
+        "border loops derived from the face list alone; finally a generated sequence of 3-10 calls (extract_border_cycle with / "
+        "without / with an invalid start, extract_border_cycle_all, extract_boundary_of_surface, is_vertex_on_border, an only_border "
+        "feature detector) on ONE mesh object, every answer validated and mesh.boundary_vertices / boundary_edges / the containers "
+        "compared with the face list after every call. non-trivial = >= 2 border loops. "
         "(features) meshes built so that the angle between adjacent face normals is prescribed: a seed (single triangle / regular "
         "n-gon pyramid with one prescribed angle on all its interior edges / 'roof' = extruded profile polyline of planar trapezoid "
         "panels, kept as quads or split, with prescribed ridge angles and deleted cells) + up to 20 triangles folded onto free border "
         "edges by a prescribed signed angle; angles drawn from bands at 1e-4..1e-1 degrees on either side of 36.87 (acos 0.8) and 60 "
         "degrees, just above 0, exactly 0, and uniformly from [0,175]; plus well-shaped generic triangulated surfaces (closed ones "
-        "too); random rigid motion / scale / relabelling / orientation reversal; random subset of edges declared in the raw data "
+        "too) and surfaces of random polycubes (angles 0/90 degrees, angle sums up to 540 degrees, coordinates handed over as python "
+        "ints, numpy int64 rows, floats or numpy float rows); random rigid motion / uniform scale 1e-6..1e6 / relabelling / orientation reversal; random subset of edges declared in the raw data "
         "(hard edges); detector options only_border x flag_corners x corner_order 1..8 x feature graph on/off, optional pre-computed "
-        "'normals' attribute, optional second run with other options on the same mesh. Expected edge set from own Newell normals. "
+        "'normals' attribute, verbose on/off, optional second run with other options on the same mesh, optional re-run of the SAME detector object, optional "
+        "in-place move of the mesh vertices (anisotropic stretch) followed by a run of the same / a new detector, optional border "
+        "extraction calls before and after the detector on the same mesh. Expected edge set from own Newell normals. "
         "non-trivial = some interior edge has an angle within 1e-2 degree of 36.87 or 60 degrees. distinct = distinct realised cases.")
 ASSUMPTIONS = [
     "input surfaces are oriented manifolds with a simple 1-skeleton (no bow-tie vertices), faces planar and non-degenerate "
@@ -34,6 +40,10 @@ ASSUMPTIONS = [
     "are exempt; corners are only asserted at feature vertices (and default 0 elsewhere on a fresh mesh)",
     "the map returned by extract_boundary_of_surface is expected in the documented direction (polyline id -> surface id); the "
     "other oracles are evaluated through whichever direction is consistent so that the direction verdict is a separate signature",
+    "no library call of this property may alter the mesh: vertices / faces / edges and mesh.boundary_vertices / boundary_edges are "
+    "compared with the face list after the calls (attributes the detector documents - 'feature', 'corners', 'border' - are allowed)",
+    "after vertices are moved in place a new run must reflect the new geometry, unless the caller himself stored a 'normals' "
+    "attribute beforehand (pre_normals cases are not moved)",
     "vertex coordinates are copied unchanged into the boundary polyline / feature graph (tolerance 0: they are copies)",
 ]
 
@@ -77,6 +87,9 @@ def holey_grid(draw, big=False):
     return V, F, tags
 
 
+SEQ_OPS = ["all", "all", "all", "boundary", "boundary", "cycle", "cycle", "cycle_default", "cycle_bad", "is_border", "detector"]
+
+
 @st.composite
 def border_case(draw, big=False):
     max_faces = 200 if big else 60
@@ -105,7 +118,8 @@ def border_case(draw, big=False):
             tags.append("relabelled")
     if not _valid_bordered(V, F):
         raise AssertionError("generator produced an invalid surface")
-    return {"V": V, "F": F, "tags": tags, "s0": draw(st.integers(0, 10 ** 4)), "probe": draw(st.integers(0, 10 ** 4))}
+    ops = draw(st.lists(st.tuples(st.sampled_from(SEQ_OPS), st.integers(0, 10 ** 4)).map(list), min_size=3, max_size=10))
+    return {"V": V, "F": F, "tags": tags, "s0": draw(st.integers(0, 10 ** 4)), "probe": draw(st.integers(0, 10 ** 4)), "ops": ops}
 
 
 # ============================================================================================ border: oracle
@@ -146,24 +160,207 @@ def check_cycle(ctx, r, s, loops, loop_of, bedges, eid, what):
     return ctx.check(eb == exp, "cycle:edges", f"{what}: edge list {eb}, ids of consecutive pairs (incl. closing edge) {exp}; vertices {vb}")
 
 
+class BorderRef:
+    """everything the border oracles need, derived from the face list alone"""
+
+    def __init__(self, V, F):
+        self.V, self.F = V, F
+        self.ref = SurfRef(len(V), F)
+        if self.ref.validate() is not None:
+            raise AssertionError("invalid generated case")
+        self.loops = self.ref.border_loops()
+        if self.loops is None:
+            raise AssertionError("invalid generated case (bow-tie on border)")
+        self.bedges = self.ref.border_edges()
+        self.loop_of = {v: i for i, l in enumerate(self.loops) for v in l}
+        self.bverts = sorted(self.loop_of)
+        self.eid = None
+
+    def normals_ok(self):
+        """the library's face normal (first three vertices) is defined: needed before a detector may be run on the mesh"""
+        A = np.array(self.V, dtype=float)
+        for f in self.F:
+            a, b, c = A[f[0]], A[f[1]], A[f[2]]
+            if np.linalg.norm(np.cross(b - a, c - a)) < 1e-6 * np.linalg.norm(b - a) * np.linalg.norm(c - a) + 1e-300:
+                return False
+        return True
+
+
+def check_all(ctx, r, B, what):
+    loops, loop_of, bedges = B.loops, B.loop_of, B.bedges
+    if not ctx.check(isinstance(r, list) and all(_as_int_list(c) is not None for c in r), "all:shape", f"{what}: returned {r!r}"):
+        return
+    cyc = [_as_int_list(c) for c in r]
+    good = True
+    for c in cyc:
+        if not ctx.check(len(c) > 0 and c[0] in loop_of, "all:cycle", f"{what}: cycle {c} does not start on the border"):
+            good = False
+            continue
+        n = len(c)
+        loop = loops[loop_of[c[0]]]
+        good &= bool(ctx.check(len(set(c)) == n and set(c) == set(loop), "all:cycle", f"{what}: cycle {c} vs border loop {loop}"))
+        good &= bool(ctx.check(all(key(c[i], c[(i + 1) % n]) in bedges for i in range(n)) if n > 1 else False, "all:cycle",
+                               f"{what}: cycle {c} is not a closed walk along border edges"))
+    if good:
+        got = sorted(loop_of[c[0]] for c in cyc)
+        ctx.check(len(cyc) == len(loops), "all:count", f"{what}: {len(cyc)} cycles returned, the surface has {len(loops)} border loops")
+        ctx.check(got == list(range(len(loops))), "all:once", f"{what}: loops returned (by index, sorted): {got}; expected each of {len(loops)} once")
+
+
+def check_boundary(ctx, M, r, B, what):
+    V, loop_of, bverts, bedges = B.V, B.loop_of, B.bverts, B.bedges
+    if not ctx.check(isinstance(r, tuple) and len(r) == 2 and isinstance(r[0], M.mesh.PolyLine) and isinstance(r[1], dict), "boundary:shape",
+                     f"{what}: returned {type(r).__name__} {r!r}"[:300]):
+        return
+    bound, mp = r
+    nb = len(bound.vertices)
+    BV = [[float(x) for x in bound.vertices[i]] for i in range(nb)]
+    bE = [tuple(ints(e)) for e in bound.edges]
+    if not ctx.check(nb == len(bverts), "boundary:vertices", f"{what}: polyline has {nb} vertices, the surface {len(bverts)} border vertices"):
+        return
+    try:
+        mp = {int(a): int(b) for a, b in mp.items()}
+    except Exception:
+        ctx.check(False, "boundary:map", f"{what}: map is not int->int: {mp!r}"[:300])
+        return
+    if not ctx.check(len(mp) == nb, "boundary:map", f"{what}: map has {len(mp)} entries for {nb} polyline vertices"):
+        return
+    same = lambda p, q: all(float(a) == float(b) for a, b in zip(p, q))
+    doc_dir = set(mp.keys()) == set(range(nb)) and set(mp.values()) <= set(bverts) and all(same(BV[k], V[v]) for k, v in mp.items())
+    inv_dir = set(mp.values()) == set(range(nb)) and set(mp.keys()) <= set(bverts) and all(same(BV[k], V[v]) for v, k in mp.items())
+    if not ctx.check(doc_dir or inv_dir, "boundary:map",
+                     f"{what}: map {mp} is in neither direction an index correspondence polyline vertex <-> surface border vertex with equal coordinates"):
+        return
+    b2m = dict(mp) if doc_dir else {k: v for v, k in mp.items()}
+    ctx.check(len(set(b2m.values())) == nb and set(b2m.values()) == set(bverts), "boundary:map-injective",
+              f"{what}: map is not a bijection onto the border vertices: {b2m}")
+    if ctx.check(all(len(e) == 2 and 0 <= e[0] < nb and 0 <= e[1] < nb for e in bE), "boundary:edges", f"{what}: polyline edges out of range: {bE}"):
+        mapped = [key(b2m[a], b2m[b]) for a, b in bE]
+        ctx.check(len(mapped) == len(set(mapped)) and set(mapped) == bedges, "boundary:edges",
+                  f"{what}: polyline edges mapped to the surface {sorted(mapped)} != border edges {sorted(bedges)} "
+                  f"(missing {sorted(bedges - set(mapped))}, extra {sorted(set(mapped) - bedges)})")
+    if bound.vertices.has_attribute("component") and bverts:
+        comp = bound.vertices.get_attribute("component")
+        try:
+            keys = sorted(int(k) for k in comp) if hasattr(comp, "_data") and isinstance(comp._data, dict) else list(range(nb))
+        except Exception:
+            keys = None
+        if ctx.check(keys is not None and all(0 <= k < nb for k in keys), "boundary:component-attr",
+                     f"{what}: 'component' attribute of the polyline is written at indices {keys} but the polyline has {nb} vertices"):
+            vals = {k: int(comp[k]) for k in range(nb)}
+            byloop = {}
+            for k in range(nb):
+                byloop.setdefault(loop_of[b2m[k]], set()).add(vals[k])
+            ctx.check(all(len(s) == 1 for s in byloop.values()) and len(set(next(iter(s)) for s in byloop.values())) == len(byloop),
+                      "boundary:component-attr", f"{what}: 'component' attribute is not constant per border loop / distinct across loops: {byloop}")
+    ctx.check(doc_dir, "boundary:map-direction",
+              f"{what}: returned map {dict(list(mp.items())[:8])}... maps surface vertex ids to polyline ids; documented (and stated) is the map "
+              f"from polyline vertex ids back to the surface")
+
+
+def check_non_border_start(ctx, P, m, s, what):
+    try:
+        r = P.extract_border_cycle(m, s)
+        ctx.check(False, "cycle:non-border-start", f"{what}: extract_border_cycle(m,{s}) with {s} not on the border returned {r!r} instead of raising")
+    except Exception as e:
+        if type(e).__name__ in ("Violation", "Inconclusive", "HarnessError"):
+            raise
+        ctx.check(type(e) is Exception and "not on mesh border" in str(e), "cycle:non-border-start",
+                  f"{what}: extract_border_cycle(m,{s}) raised {type(e).__name__}: {e}")
+
+
+def mesh_snapshot(m):
+    return ([tuple(float(x) for x in p) for p in m.vertices], [tuple(ints(f)) for f in m.faces], [tuple(ints(e)) for e in m.edges])
+
+
+def check_border_state(ctx, m, B, what):
+    """the mesh's own border containers are what the face list says (no call may consume / alter them)"""
+    bv, be = ints(m.boundary_vertices), ints(m.boundary_edges)
+    expe = sorted(B.eid[e] for e in B.bedges)
+    ok = ctx.check(sorted(bv) == B.bverts and len(set(bv)) == len(bv), "state:boundary_vertices",
+                   f"{what}: mesh.boundary_vertices = {bv[:20]}, the face list gives {B.bverts[:20]}")
+    ok &= bool(ctx.check(sorted(be) == expe and len(set(be)) == len(be), "state:boundary_edges",
+                         f"{what}: mesh.boundary_edges = {be[:20]}, the face list gives {expe[:20]}"))
+    return ok
+
+
+def border_sequence(ctx, M, m, B, ops, label):
+    """a generated order of border queries on ONE mesh object; every answer validated, mesh state compared after every call"""
+    P = M.processing
+    V = B.V
+    snap = mesh_snapshot(m)
+    others = [v for v in range(len(V)) if v not in B.loop_of]
+    hist = []
+    for (op, a) in ops:
+        what = f"{label} call #{len(hist)} {op} (after {hist[-4:]})"
+        if op == "cycle":
+            if B.bverts:
+                s = B.bverts[a % len(B.bverts)]
+                ok, r = ctx.call("cycle", P.extract_border_cycle, m, s)
+                if ok:
+                    check_cycle(ctx, r, s, B.loops, B.loop_of, B.bedges, B.eid, what + f" extract_border_cycle(m,{s})")
+        elif op == "cycle_default":
+            ok, r = ctx.call("cycle", P.extract_border_cycle, m)
+            if ok:
+                if B.bverts:
+                    check_cycle(ctx, r, None, B.loops, B.loop_of, B.bedges, B.eid, what + " extract_border_cycle(m)")
+                else:
+                    ctx.check(isinstance(r, (list, tuple)) and all(len(x) == 0 for x in r), "cycle:closed", f"{what}: closed surface: returned {r!r}")
+        elif op == "cycle_bad":
+            if others and B.bverts:
+                check_non_border_start(ctx, P, m, others[a % len(others)], what)
+        elif op == "all":
+            ok, r = ctx.call("all", P.extract_border_cycle_all, m)
+            if ok:
+                check_all(ctx, r, B, what)
+        elif op == "boundary":
+            ok, r = ctx.call("boundary", P.extract_boundary_of_surface, m)
+            if ok:
+                check_boundary(ctx, M, r, B, what)
+        elif op == "is_border":
+            v = a % len(V)
+            ok, r = ctx.call("state", m.is_vertex_on_border, v)
+            if ok:
+                ctx.check(bool(r) == (v in B.loop_of), "state:is_vertex_on_border", f"{what}: is_vertex_on_border({v}) = {r!r}")
+        elif op == "detector":
+            if not B.normals_ok():
+                ctx.label("seq:detector-skipped-degenerate-face")
+                hist.append("detector-skipped")
+                continue
+            det = P.FeatureEdgeDetector(only_border=True, flag_corners=bool(a % 2), compute_feature_graph=bool(a % 3 == 0), verbose=False)
+            ok, _ = ctx.call("detector", det.run, m)
+            if ok:
+                fe = set(ints(det.feature_edges))
+                ctx.check(fe == set(B.eid[e] for e in B.bedges), "detector:only_border",
+                          f"{what}: only_border detector flags edges {sorted(fe)[:20]}, border edges are {sorted(B.eid[e] for e in B.bedges)[:20]}")
+        elif op == "containers":
+            pass
+        else:
+            raise AssertionError(op)
+        hist.append(op)
+        if not check_border_state(ctx, m, B, what + " -> afterwards"):
+            return
+    ctx.check(mesh_snapshot(m) == snap, "state:containers", f"{label}: vertices / faces / edges of the mesh changed during {hist}")
+
+
 def fn_border(case, ctx):
     import mouette as M
     V, F = case["V"], case["F"]
-    ref = SurfRef(len(V), F)
-    if ref.validate() is not None:
-        raise AssertionError("invalid generated case")
-    loops = ref.border_loops()
-    if loops is None:
-        raise AssertionError("invalid generated case (bow-tie on border)")
-    bedges = ref.border_edges()
-    loop_of = {v: i for i, l in enumerate(loops) for v in l}
-    bverts = sorted(loop_of)
+    B = BorderRef(V, F)
+    ref, loops, loop_of, bedges, bverts = B.ref, B.loops, B.loop_of, B.bedges, B.bverts
     chord = any(a in loop_of and b in loop_of and (a, b) not in bedges for (a, b) in ref.uedges)
     cross = any(a in loop_of and b in loop_of and (a, b) not in bedges and loop_of[a] != loop_of[b] for (a, b) in ref.uedges)
     for t in case.get("tags", []):
         ctx.label(t)
     ctx.label(f"loops={min(len(loops), 5)}", f"comps={min(ref.n_face_components(), 3)}", f"chord={chord}",
               f"chord-between-loops={cross}", "arity=" + ("tri" if all(len(f) == 3 for f in F) else "other"))
+    ops = [tuple(o) for o in case.get("ops", [])]
+    names = [o[0] for o in ops]
+    ctx.label("seq:first=" + (names[0] if names else "none"))
+    for first in ("all", "boundary", "detector"):
+        later = [n for i, n in enumerate(names) if first in names[:i] and n in ("cycle", "cycle_default", "all", "boundary")]
+        if later and bverts:
+            ctx.label(f"seq:{first}-then-extraction")
     ctx.nontrivial(len(loops) >= 2)
     M.config.sort_neighborhoods = True
     P = M.processing
@@ -173,7 +370,7 @@ def fn_border(case, ctx):
     medges = [tuple(ints(e)) for e in m.edges]
     if not ctx.check(set(medges) == ref.uedges and len(set(medges)) == len(medges), "edges", "edge container differs from the sides of the faces"):
         return
-    eid = {e: i for i, e in enumerate(medges)}
+    eid = B.eid = {e: i for i, e in enumerate(medges)}
     if bverts:
         k = case["s0"] % len(bverts)
         for s in bverts[k:] + bverts[:k]:
@@ -184,14 +381,8 @@ def fn_border(case, ctx):
     others = [v for v in range(len(V)) if v not in loop_of]
     rnd = random.Random(case["probe"])
     for s in rnd.sample(others, min(3, len(others))) if bverts else []:
-        try:
-            r = P.extract_border_cycle(m, s)
-            ctx.check(False, "cycle:non-border-start", f"extract_border_cycle(m,{s}) with {s} not on the border returned {r!r} instead of raising")
-        except Exception as e:
-            if type(e).__name__ in ("Violation", "Inconclusive", "HarnessError"):
-                raise
-            ctx.check(type(e) is Exception and "not on mesh border" in str(e), "cycle:non-border-start",
-                      f"extract_border_cycle(m,{s}) raised {type(e).__name__}: {e}")
+        check_non_border_start(ctx, P, m, s, "after all starts")
+    check_border_state(ctx, m, B, "after extract_border_cycle from every border vertex")
 
     # --- default start on a fresh mesh
     m = surface_from(V, F)
@@ -202,78 +393,21 @@ def fn_border(case, ctx):
         else:
             ctx.check(isinstance(r, (list, tuple)) and all(len(x) == 0 for x in r), "cycle:closed", f"closed surface: returned {r!r}")
 
-    # --- B. all cycles
+    # --- B. all cycles, as first call on a fresh mesh
     m = surface_from(V, F)
     ok, r = ctx.call("all", P.extract_border_cycle_all, m)
-    if ok and ctx.check(isinstance(r, list) and all(_as_int_list(c) is not None for c in r), "all:shape", f"returned {r!r}"):
-        cyc = [_as_int_list(c) for c in r]
-        good = True
-        for c in cyc:
-            if not ctx.check(len(c) > 0 and c[0] in loop_of, "all:cycle", f"cycle {c} does not start on the border"):
-                good = False
-                continue
-            n = len(c)
-            loop = loops[loop_of[c[0]]]
-            good &= bool(ctx.check(len(set(c)) == n and set(c) == set(loop), "all:cycle", f"cycle {c} vs border loop {loop}"))
-            good &= bool(ctx.check(all(key(c[i], c[(i + 1) % n]) in bedges for i in range(n)) if n > 1 else False, "all:cycle",
-                                   f"cycle {c} is not a closed walk along border edges"))
-        if good:
-            got = sorted(loop_of[c[0]] for c in cyc)
-            ctx.check(len(cyc) == len(loops), "all:count", f"{len(cyc)} cycles returned, the surface has {len(loops)} border loops")
-            ctx.check(got == list(range(len(loops))), "all:once", f"loops returned (by index, sorted): {got}; expected each of {len(loops)} once")
+    if ok:
+        check_all(ctx, r, B, "extract_border_cycle_all(fresh mesh)")
 
-    # --- C. boundary polyline
+    # --- C. boundary polyline, as first call on a fresh mesh
     m = surface_from(V, F)
     ok, r = ctx.call("boundary", P.extract_boundary_of_surface, m)
-    if not ok:
-        return
-    if not ctx.check(isinstance(r, tuple) and len(r) == 2 and isinstance(r[0], M.mesh.PolyLine) and isinstance(r[1], dict), "boundary:shape",
-                     f"returned {type(r).__name__} {r!r}"[:300]):
-        return
-    bound, mp = r
-    nb = len(bound.vertices)
-    BV = [[float(x) for x in bound.vertices[i]] for i in range(nb)]
-    bE = [tuple(ints(e)) for e in bound.edges]
-    if not ctx.check(nb == len(bverts), "boundary:vertices", f"polyline has {nb} vertices, the surface {len(bverts)} border vertices"):
-        return
-    try:
-        mp = {int(a): int(b) for a, b in mp.items()}
-    except Exception:
-        ctx.check(False, "boundary:map", f"map is not int->int: {mp!r}"[:300])
-        return
-    if not ctx.check(len(mp) == nb, "boundary:map", f"map has {len(mp)} entries for {nb} polyline vertices"):
-        return
-    same = lambda p, q: all(float(a) == float(b) for a, b in zip(p, q))
-    doc_dir = set(mp.keys()) == set(range(nb)) and set(mp.values()) <= set(bverts) and all(same(BV[k], V[v]) for k, v in mp.items())
-    inv_dir = set(mp.values()) == set(range(nb)) and set(mp.keys()) <= set(bverts) and all(same(BV[k], V[v]) for v, k in mp.items())
-    if not ctx.check(doc_dir or inv_dir, "boundary:map",
-                     f"map {mp} is in neither direction an index correspondence polyline vertex <-> surface border vertex with equal coordinates"):
-        return
-    b2m = dict(mp) if doc_dir else {k: v for v, k in mp.items()}
-    ctx.check(len(set(b2m.values())) == nb and set(b2m.values()) == set(bverts), "boundary:map-injective",
-              f"map is not a bijection onto the border vertices: {b2m}")
-    if ctx.check(all(len(e) == 2 and 0 <= e[0] < nb and 0 <= e[1] < nb for e in bE), "boundary:edges", f"polyline edges out of range: {bE}"):
-        mapped = [key(b2m[a], b2m[b]) for a, b in bE]
-        ctx.check(len(mapped) == len(set(mapped)) and set(mapped) == bedges, "boundary:edges",
-                  f"polyline edges mapped to the surface {sorted(mapped)} != border edges {sorted(bedges)} "
-                  f"(missing {sorted(bedges - set(mapped))}, extra {sorted(set(mapped) - bedges)})")
-    if bound.vertices.has_attribute("component") and bverts:
-        comp = bound.vertices.get_attribute("component")
-        try:
-            keys = sorted(int(k) for k in comp) if hasattr(comp, "_data") and isinstance(comp._data, dict) else list(range(nb))
-        except Exception:
-            keys = None
-        if ctx.check(keys is not None and all(0 <= k < nb for k in keys), "boundary:component-attr",
-                     f"'component' attribute of the polyline is written at indices {keys} but the polyline has {nb} vertices"):
-            vals = {k: int(comp[k]) for k in range(nb)}
-            byloop = {}
-            for k in range(nb):
-                byloop.setdefault(loop_of[b2m[k]], set()).add(vals[k])
-            ctx.check(all(len(s) == 1 for s in byloop.values()) and len(set(next(iter(s)) for s in byloop.values())) == len(byloop),
-                      "boundary:component-attr", f"'component' attribute is not constant per border loop / distinct across loops: {byloop}")
-    ctx.check(doc_dir, "boundary:map-direction",
-              f"returned map {dict(list(mp.items())[:8])}... maps surface vertex ids to polyline ids; documented (and stated) is the map "
-              f"from polyline vertex ids back to the surface")
+    if ok:
+        check_boundary(ctx, M, r, B, "extract_boundary_of_surface(fresh mesh)")
+
+    # --- D. generated order of calls on one mesh object
+    if ops:
+        border_sequence(ctx, M, surface_from(V, F), B, ops, "sequence on one mesh:")
 
 
 # ============================================================================================ features: generators
@@ -366,12 +500,90 @@ def roof(draw, big=False):
     return V, F, ["seed=roof", "roofcells=" + mode]
 
 
+CUBE_FACES = {  # direction -> quad (offsets), outward orientation checked by the builder
+    (-1, 0, 0): [(0, 0, 0), (0, 0, 1), (0, 1, 1), (0, 1, 0)], (1, 0, 0): [(1, 0, 0), (1, 1, 0), (1, 1, 1), (1, 0, 1)],
+    (0, -1, 0): [(0, 0, 0), (1, 0, 0), (1, 0, 1), (0, 0, 1)], (0, 1, 0): [(0, 1, 0), (0, 1, 1), (1, 1, 1), (1, 1, 0)],
+    (0, 0, -1): [(0, 0, 0), (0, 1, 0), (1, 1, 0), (1, 0, 0)], (0, 0, 1): [(0, 0, 1), (1, 0, 1), (1, 1, 1), (0, 1, 1)]}
+
+
+def polycube_surface(cells):
+    """outward oriented boundary quads of a set of unit cubes; integer coordinates"""
+    cells = set(cells)
+    vid, V, F = {}, [], []
+    for c in sorted(cells):
+        for d, quad in sorted(CUBE_FACES.items()):
+            if (c[0] + d[0], c[1] + d[1], c[2] + d[2]) in cells:
+                continue
+            pts = [(c[0] + o[0], c[1] + o[1], c[2] + o[2]) for o in quad]
+            n = np.cross(np.subtract(pts[1], pts[0]), np.subtract(pts[2], pts[0]))
+            if np.dot(n, d) < 0:
+                pts = pts[::-1]
+            f = []
+            for q in pts:
+                if q not in vid:
+                    vid[q] = len(V); V.append([int(x) for x in q])
+                f.append(vid[q])
+            F.append(f)
+    return V, F
+
+
+@st.composite
+def polycube(draw, big=False):
+    """random face-connected polycube whose surface is a manifold (cells that would pinch it are not added): all normal angles
+    are 0 or 90 degrees, vertex angle sums 270 (convex corner), 360, 450 (re-entrant corner), 540 ... degrees"""
+    rnd = random.Random(draw(st.integers(0, 10 ** 6)))
+    n = draw(st.integers(1, 10 if big else 6))
+    cells = [(0, 0, 0)]
+    for _ in range(4 * n):
+        if len(cells) >= n:
+            break
+        c = cells[rnd.randrange(len(cells))]
+        d = list(CUBE_FACES)[rnd.randrange(6)]
+        c2 = (c[0] + d[0], c[1] + d[1], c[2] + d[2])
+        if c2 in cells or max(abs(x) for x in c2) > 2:
+            continue
+        V, F = polycube_surface(cells + [c2])
+        if SurfRef(len(V), F).validate() is None:
+            cells.append(c2)
+    V, F = polycube_surface(cells)
+    mode = draw(st.sampled_from(["quad", "tri", "mixed"]))
+    if mode != "quad":
+        F2 = []
+        for f in F:
+            if mode == "tri" or rnd.random() < 0.5:
+                k = rnd.randrange(2)
+                g = f[k:] + f[:k]
+                F2 += [[g[0], g[1], g[2]], [g[0], g[2], g[3]]]
+            else:
+                F2.append(f)
+        F = F2
+    for i in draw(st.lists(st.integers(0, 1000), max_size=3)):
+        k = i % len(F)
+        F3 = F[:k] + F[k + 1:]
+        if len(F3) >= 2 and _valid_bordered(V, F3) and len(set(v for f in F3 for v in f)) == len(V):
+            F = F3
+    return V, F, ["seed=polycube", f"cubes={len(cells)}", "cubecells=" + mode]
+
+
 @st.composite
 def feature_case(draw, big=False):
     max_att = 60 if big else 20
-    fam = draw(st.sampled_from(["tri", "tri", "pyr", "pyr", "roof", "roof", "roof", "generic"]))
+    fam = draw(st.sampled_from(["tri", "tri", "pyr", "pyr", "roof", "roof", "roof", "generic", "polycube", "polycube"]))
     tags = []
-    if fam == "generic":
+    vform = "float"
+    if fam == "polycube":
+        V, F, tags = draw(polycube(big))
+        vform = draw(st.sampled_from(["int", "npint", "float", "npfloat", "moved"]))
+        if vform == "moved":
+            vform = "float"
+            sc = draw(st.sampled_from([1e-6, 1e-3, 1.0, 1e3, 1e6]))
+            V = [[0.0 if abs(x) < 1e-12 * sc else float(x) for x in v] for v in G.rigid((np.array(V) * sc).tolist(), draw(st.integers(0, 10 ** 6)))]
+            tags += [f"scale={sc:g}", "rigid=True"]
+        if draw(st.booleans()):
+            V, F, _ = G.relabel(V, F, draw(st.integers(0, 10000)), reverse=False)
+            tags.append("relabelled")
+        F = [list(map(int, f)) for f in F]
+    elif fam == "generic":
         s = draw(G.well_shaped_trisurf(max_faces=150 if big else 40))
         V, F = s["V"], s["F"]
         tags = ["seed=generic"] + [t for t in s["tags"] if t.startswith(("base=", "closed", "bordered"))]
@@ -404,7 +616,7 @@ def feature_case(draw, big=False):
             w = len(V) - 1
             free += [(a, w, len(F) - 1), (w, b, len(F) - 1)]
         tags.append("attached=" + ("0" if natt == 0 else "1-5" if natt <= 5 else "6+"))
-        sc = draw(st.sampled_from([1.0, 1.0, 1e-3, 1e3, 7.3]))
+        sc = draw(st.sampled_from([1.0, 1.0, 1.0, 1e-3, 1e3, 7.3, 1e-6, 1e6]))
         mot = draw(st.booleans())
         A = np.array(V) * sc
         V = G.rigid(A.tolist(), draw(st.integers(0, 10 ** 6))) if mot else A.tolist()
@@ -427,9 +639,12 @@ def feature_case(draw, big=False):
     def opts():
         return {"only_border": draw(st.sampled_from([False] * 5 + [True])), "flag_corners": draw(st.sampled_from([True, True, True, False])),
                 "corner_order": draw(st.sampled_from([1, 2, 3, 4, 4, 4, 5, 6, 8])), "graph": draw(st.booleans()),
-                "via": draw(st.sampled_from(["run", "run", "detect", "call"]))}
+                "via": draw(st.sampled_from(["run", "run", "detect", "call"])), "verbose": draw(st.sampled_from([False] * 4 + [True]))}
+    second = draw(st.sampled_from([None, None, None, "same-detector", "moved-same-detector", "moved-new-detector"]))
     return {"V": V, "F": F, "E": E, "tags": tags, "opts": opts(), "pre_normals": draw(st.sampled_from([False] * 5 + [True])),
-            "rerun": opts() if draw(st.sampled_from([False] * 4 + [True])) else None}
+            "rerun": opts() if draw(st.sampled_from([False] * 4 + [True])) else None, "vform": vform, "second": second,
+            "stretch": [draw(st.sampled_from([0.5, 0.8, 1.0, 1.25, 2.0])) for _ in range(3)],
+            "mix_border": draw(st.sampled_from([False, False, True]))}
 
 
 # ============================================================================================ features: oracle
@@ -536,6 +751,8 @@ def check_detector(ctx, M, m, det, o, ref, medges, dots, hard, asum, V, fresh, t
                     continue
                 e = max(1, int(math.floor(x + 0.5)))
                 cexp[v] = e
+                if e > order:
+                    ctx.label("corner:more-than-a-full-turn")
                 if int(cr[v]) != e:
                     bad.append((v, int(cr[v]), e, float(asum[v])))
             if nex:
@@ -573,7 +790,37 @@ def check_detector(ctx, M, m, det, o, ref, medges, dots, hard, asum, V, fresh, t
 
 def make_detector(M, o):
     return M.processing.FeatureEdgeDetector(only_border=o["only_border"], flag_corners=o["flag_corners"], corner_order=o["corner_order"],
-                                            compute_feature_graph=o["graph"], verbose=False)
+                                            compute_feature_graph=o["graph"], verbose=bool(o.get("verbose", False)))
+
+
+def feature_mesh(M, V, F, E, vform):
+    """vertices handed over as python floats / python ints / numpy int64 rows / numpy float rows"""
+    from mouette.mesh.mesh_data import RawMeshData
+    raw = RawMeshData()
+    if vform == "int":
+        raw.vertices += [[int(x) for x in v] for v in V]
+    elif vform == "npint":
+        raw.vertices += [np.array(v, dtype=np.int64) for v in V]
+    elif vform == "npfloat":
+        raw.vertices += [np.array(v, dtype=float) for v in V]
+    else:
+        raw.vertices += [[float(x) for x in v] for v in V]
+    if E:
+        raw.edges += [tuple(e) for e in E]
+    raw.faces += [list(f) for f in F]
+    return M.mesh.SurfaceMesh(raw)
+
+
+def run_quiet(ctx, sig, det, o, m):
+    """run the detector (log lines of verbose mode go to a buffer); the option container given to it must not change"""
+    import io, contextlib
+    before = (det.only_border, det.flag_corners, det.corner_order, det.compute_feature_graph)
+    with contextlib.redirect_stdout(io.StringIO()):
+        ok, _ = ctx.call(sig, run_via(det, o), m)
+    if ok:
+        after = (det.only_border, det.flag_corners, det.corner_order, det.compute_feature_graph)
+        ctx.check(before == after, "feat:options-changed", f"detector options changed during the run: {before} -> {after}")
+    return ok
 
 
 def run_via(det, o):
@@ -596,6 +843,8 @@ def fn_features(case, ctx):
         ctx.label(t)
     ctx.label(f"only_border={o['only_border']}", f"flag_corners={o['flag_corners']}", f"order={o['corner_order']}", f"graph={o['graph']}",
               "arity=" + ("tri" if all(len(f) == 3 for f in F) else "quad/mixed"), "declared=" + ("none" if not E else "all" if len(hard) == len(ref.uedges) else "some"))
+    if o.get("verbose"):
+        ctx.label("verbose")
     if case["pre_normals"]:
         ctx.label("pre_normals")
     if case["rerun"]:
@@ -622,10 +871,20 @@ def fn_features(case, ctx):
     ctx.nontrivial(near)
 
     M.config.sort_neighborhoods = True
-    m = surface_from(V, F, E)
+    vform = case.get("vform", "float")
+    ctx.label("vform=" + vform)
+    m = feature_mesh(M, V, F, E, vform)
     medges = [tuple(ints(e)) for e in m.edges]
     if not ctx.check(set(medges) == ref.uedges and len(set(medges)) == len(medges), "edges", "edge container differs from the sides of the faces"):
         return
+    snap = mesh_snapshot(m)
+    B = None
+    if case.get("mix_border"):
+        # border extraction and feature detection share the mesh's border caches: interleave them on the one mesh object
+        ctx.label("mix_border")
+        B = BorderRef([[float(x) for x in v] for v in V], F)
+        B.eid = {e: i for i, e in enumerate(medges)}
+        border_sequence(ctx, M, m, B, [("all", 0), ("boundary", 0)], "before the detector:")
     if m.edges.has_attribute("hard_edges"):
         ha = m.edges.get_attribute("hard_edges")
         hs = set(medges[i] for i in range(len(medges)) if bool(ha[i]))
@@ -638,16 +897,40 @@ def fn_features(case, ctx):
         if not ok:
             return
     det = make_detector(M, o)
-    ok, _ = ctx.call("run", run_via(det, o), m)
-    if not ok:
+    if not run_quiet(ctx, "run", det, o, m):
         return
     check_detector(ctx, M, m, det, o, ref, medges, dots, hard, asum, V, True, "run")
+    last = (det, o)
     if case["rerun"]:
         o2 = case["rerun"]
         det2 = make_detector(M, o2)
-        ok, _ = ctx.call("rerun", run_via(det2, o2), m)
-        if ok:
+        if run_quiet(ctx, "rerun", det2, o2, m):
             check_detector(ctx, M, m, det2, o2, ref, medges, dots, hard, asum, V, False, f"second run (after a run with {o})")
+            last = (det2, o2)
+    ctx.check(mesh_snapshot(m) == snap, "state:containers", "vertices / faces / edges of the mesh changed during the detection")
+    second = case.get("second")
+    if second == "same-detector":
+        # the SAME detector object run again on the same mesh: everything is rebuilt, nothing accumulates
+        ctx.label("second=same-detector")
+        if run_quiet(ctx, "rerun", det, o, m):
+            check_detector(ctx, M, m, det, o, ref, medges, dots, hard, asum, V, False, "same detector object run a second time")
+    elif second in ("moved-same-detector", "moved-new-detector") and not case["pre_normals"]:
+        # the vertices of the same mesh object are moved (anisotropic stretch: faces stay planar, angles change); a new run must see
+        # the new geometry (nothing geometric may be remembered on the mesh or in the detector)
+        ctx.label("second=" + second)
+        st3 = np.array(case.get("stretch", [1.0, 1.0, 1.0]), dtype=float)
+        V2 = (np.array(V, dtype=float) * st3).tolist()
+        for i, p in enumerate(V2):
+            m.vertices[i] = M.Vec(p)
+        _, _, dots2, asum2 = own_geometry(V2, F, ref)
+        d3, o3 = last if second == "moved-same-detector" else (make_detector(M, o), o)
+        if run_quiet(ctx, "rerun-moved", d3, o3, m):
+            check_detector(ctx, M, m, d3, o3, ref, medges, dots2, hard, asum2, V2, False, f"run after moving the vertices of the mesh (stretch {st3.tolist()})")
+        if B is not None:
+            B = BorderRef(V2, F)
+            B.eid = {e: i for i, e in enumerate(medges)}
+    if B is not None:
+        border_sequence(ctx, M, m, B, [("boundary", 0), ("all", 0), ("cycle_default", 0)], "after the detector:")
 
 
 # ============================================================================================ self test
